@@ -334,6 +334,7 @@ impl C08 {
             ("token-sequences", t.pick(60_000, 3_000_000)),
             ("adjacent-pairs", 3000),
             ("keyword-identifiers", 360),
+            ("file-bytes-through-the-binary", t.pick(120, 3_000)),
             ("conservation-directed", DIRECTED_CONSERVATION.len() as u64),
             ("conservation-programs", t.pick(20_000, 500_000)),
             ("conservation-mutants", t.pick(60_000, 2_000_000)),
@@ -512,6 +513,21 @@ impl Check for C08 {
                     st.sample(&format!("token sequence: {:?}", text));
                 }
                 self.check_sequence(&toks, &seps, st, name);
+            }
+            "file-bytes-through-the-binary" => {
+                // a string literal with raw line ends and other raw characters, in a FILE run by the shipped binary: the file
+                // reader must hand the lexer every byte (CR LF is two characters, inside a literal as anywhere)
+                let alphabet = ["\r\n", "\r", "\n", "\t", "\u{85}", "\u{feff}", "\u{a0}", "a", "é", "💖", " ", "\\\\", "\\n", "#", "//"];
+                let n = 1 + r.below(6);
+                let mut body = String::new();
+                for _ in 0..n {
+                    body.push_str(*r.pick(&alphabet));
+                }
+                let lead = *r.pick(&["", "\r\n", "// kop\r\n", "\u{feff}", "\n\n"]);
+                let sep = *r.pick(&["; ", ";\r\n", "\r\n", "\n"]);
+                let text = format!("{}stel s = \"{}\"{}print(\"{{}}|{{}}|\", lengte(s), s){}[lengte(s), s]", lead, body, sep, sep);
+                st.distinct_hash(crate::rng::hash_str(&text));
+                super::binfile::compare_with_binary(&text, "file-bytes-through-the-binary", st);
             }
             "keyword-identifiers" => {
                 // complete: every keyword x every affix x {behind, in front, between two keywords}, alone and in a program
